@@ -23,12 +23,24 @@ Definition item_ok (f : list N -> res nat) : Prop :=
   forall b, f b <> Panic /\ forall n, f b = Ok n -> (n <= length b)%nat.
 Definition consuming (f : list N -> res nat) : Prop := forall b n, f b = Ok n -> (1 <= n)%nat.
 
+(* every object the selector can hand out keeps the Deserialize contract *)
+Definition sel_ok (sel : selector) : Prop := forall ty f, sel ty = Some f -> item_ok f.
+
 Definition wf_op (o : dop) : Prop :=
   match o with
   | DVar l _ _ | DString l _ _ => l <> LBad
   | DSeq _ l f _ => l <> LBad /\ item_ok f
+  | DObject _ sel | DPayload sel => sel_ok sel
   | _ => True
   end.
+
+(* readObject as the item deserializer of ReadSliceOfObjects keeps the contract when the objects do *)
+Lemma obj_item_ok : forall t sel, sel_ok sel -> item_ok (obj_item t sel).
+Proof.
+  intros t sel Hs b. unfold obj_item.
+  destruct (length b <? tden_size t); [split; [discriminate | intros n Hn; discriminate]|].
+  destruct (sel (obj_type t b)) as [f|] eqn:E; [exact (Hs _ _ E b) | split; [discriminate | intros n Hn; discriminate]].
+Qed.
 Definition guarded (o : dop) : Prop := match o with DSeq _ _ f _ => consuming f | _ => True end.
 
 Lemma total_dadv : forall s n, (n <= length (rem s))%nat -> total (dadv s n) = total s /\ off (dadv s n) = (off s + n)%nat.
@@ -147,6 +159,32 @@ Proof.
   - (* DCheckType *)
     destruct (Nat.ltb_spec (length (rem s)) (if u32 then 4 else 1)%nat); [apply Hfail|].
     destruct (Z.eqb _ _); [apply Hadv; destruct u32; lia | apply Hfail].
+  - (* DGetType *)
+    destruct (length (rem s) <? tden_size t); do 3 eexists; (split; [reflexivity|]); repeat split; lia.
+  - (* DObject *) cbn in Hwf.
+    destruct (obj_item_ok t sel Hwf (rem s)) as [Hnp Hle].
+    destruct (obj_item t sel (rem s)) as [n|e|]; [|apply Hfail|congruence].
+    specialize (Hle n eq_refl). destruct (Nat.ltb_spec (length (rem s)) n); [lia|]. apply Hadv; lia.
+  - (* DPayload *) cbn in Hwf.
+    destruct (Nat.ltb_spec (length (rem s)) 4); [apply Hfail|]. cbv zeta.
+    destruct (total_dadv s 4 ltac:(lia)) as [Ht Ho].
+    set (s1 := dadv s 4) in *.
+    assert (Hf1 : forall e, exists s' out c, SOk (dfail s1 e) ONone 0 = SOk s' out c /\ total s' = total s /\ (off s <= off s')%nat /\
+                   (guarded (DPayload sel) -> (c <= N.of_nat (off s' - off s) + 64)%N)).
+    { intros e. do 3 eexists. split; [reflexivity|]. destruct (total_dfail s1 e). repeat split; lia. }
+    destruct (Z.eqb_spec (Z.of_N (le_dec (firstn 4 (rem s)))) 0).
+    { do 3 eexists. split; [reflexivity|]. repeat split; lia. }
+    destruct (Nat.ltb_spec (length (rem s1)) MinPayloadByteSize) as [|Hmin]; [apply Hf1|].
+    destruct (Z.ltb_spec (Z.of_nat (length (rem s1))) (Z.of_N (le_dec (firstn 4 (rem s))))); [apply Hf1|].
+    (* the min-size guard is what makes the payload type readable *)
+    destruct (Nat.ltb_spec (length (rem s1)) 4); [unfold MinPayloadByteSize in Hmin; lia|].
+    destruct (sel (Z.of_N (le_dec (firstn 4 (rem s1))))) as [f|] eqn:Esel; [|apply Hf1].
+    destruct (Hwf _ _ Esel (rem s1)) as [Hnp Hle].
+    destruct (f (rem s1)) as [m|e|]; [|apply Hf1|congruence].
+    specialize (Hle m eq_refl).
+    destruct (negb (Z.of_nat m =? Z.of_N (le_dec (firstn 4 (rem s))))%Z); [apply Hf1|].
+    do 3 eexists. split; [reflexivity|].
+    destruct (total_dadv s1 m Hle) as [Ht2 Ho2]. repeat split; lia.
   - (* DConsumedAll *) destruct (rem s); [exact Hkeep | apply Hfail].
 Qed.
 
@@ -199,6 +237,28 @@ Proof.
   - destruct (length b <? k); intros H; inversion H. destruct n; [congruence | lia].
   - destruct b; [discriminate|]. destruct (length (n0 :: b) <? S (N.to_nat n0)); intros H; inversion H; lia.
   - discriminate.
+Qed.
+
+(* the objects and the selector of the harness *)
+Lemma hobj_ok : forall hdr k, item_ok (hobj hdr k).
+Proof.
+  intros hdr k b. unfold hobj. destruct (Nat.ltb_spec (length b) (hdr + k)); split; try discriminate;
+    intros n Hn; inversion Hn; lia.
+Qed.
+Lemma hsel_ok : forall hdr k1 k2, sel_ok (hsel hdr k1 k2).
+Proof.
+  intros hdr k1 k2 ty f. unfold hsel.
+  destruct ((ty =? 0) || (ty =? 1))%Z; [intros H; inversion H; apply hobj_ok|].
+  destruct (ty =? 2)%Z; [intros H; inversion H; apply hobj_ok|].
+  destruct (ty =? 3)%Z; [|discriminate].
+  intros H; inversion H. intros b. split; [discriminate | intros n Hn; discriminate].
+Qed.
+Lemma hobj_consuming : forall hdr k, (1 <= hdr + k)%nat -> consuming (hobj hdr k).
+Proof. intros hdr k H b n. unfold hobj. destruct (length b <? hdr + k); intros E; inversion E; lia. Qed.
+Lemma obj_item_consuming : forall t sel, (forall ty f, sel ty = Some f -> consuming f) -> consuming (obj_item t sel).
+Proof.
+  intros t sel Hs b n. unfold obj_item. destruct (length b <? tden_size t); [discriminate|].
+  destruct (sel (obj_type t b)) as [f|] eqn:E; [apply (Hs _ _ E) | discriminate].
 Qed.
 
 (* D02d: with zero-size items the loop runs prefix-many times on a 2-byte input *)
